@@ -142,7 +142,7 @@ def ref_experiment_group(kw, pkg, defined, other_names):
 
 
 # --------------------------------------------------------------------------------------------- alphabets
-NAME_VALS = ['"t"', MISSING, "None", "5", '"a b"', '""', '"a\\n"', '"a.b"', '["t"]', '"t-2_x"']
+NAME_VALS = ['"t"', MISSING, "None", "5", '"a b"', '""', '"a\\n"', '"a.b"', '["t"]', '"t-2_x"', '"a^b"', '"a[0]"', '"a`b"', '"a\\\\b"', '"a]"']
 RUN_VALS = ['"true"', MISSING, "None", "3", '["true"]', '"./x.sh --flag"']
 PAR_VALS = [MISSING, "True", "False", "None", "1", '"yes"']
 ARGS_VALS = [MISSING, "[]", '["a", 1, 1.5, True]', "None", '"abc"', '("a",)', "[None]", '[["x"]]', '[{"a": 1}]',
@@ -256,6 +256,19 @@ def gen_sources(tier):
         ("import-error", {"COND": 'import no_such_module_xyz\nrun_command(name="t", run="true")\n'}, False),
         ("type-error", {"COND": 'run_command(name="t", run="a" + 1)\n'}, False),
         ("raise", {"COND": 'raise RuntimeError("boom")\n'}, False),
+        # every standard exception class a COND file's own code can raise (opening a missing file, a bad key, ...)
+        ("open-missing-file", {"COND": 'cfg = open("settings.json").read()\nrun_command(name="t", run="true")\n'}, False),
+        ("listdir-missing", {"COND": 'import os\nfs = os.listdir("inputs")\nrun_command(name="t", run="true")\n'}, False),
+        ("raise-filenotfound", {"COND": 'raise FileNotFoundError("no such thing")\n'}, False),
+        ("raise-permission", {"COND": 'raise PermissionError(13, "denied", "x")\n'}, False),
+        ("key-error", {"COND": 'd = {}\nd["k"]\nrun_command(name="t", run="true")\n'}, False),
+        ("attribute-error", {"COND": 'None.x\nrun_command(name="t", run="true")\n'}, False),
+        ("recursion-error", {"COND": 'def f():\n    return f()\nf()\nrun_command(name="t", run="true")\n'}, False),
+        ("unicode-error", {"COND": 'b"\\xff".decode("utf-8")\nrun_command(name="t", run="true")\n'}, False),
+        ("stop-iteration", {"COND": 'next(iter([]))\nrun_command(name="t", run="true")\n'}, False),
+        ("assertion-error", {"COND": 'assert False, "no"\nrun_command(name="t", run="true")\n'}, False),
+        ("os-error-in-dep-file", {"COND": 'run_command(name="t", run="true", deps=["//p:d"])\n',
+                                  "p/COND": 'open("missing.txt")\nrun_command(name="d", run="true")\n'}, False),
         ("non-utf8", {"COND": b'run_command(name="t", run="true")\n# \xff\xfe\n'}, False),
         ("unknown-constructor", {"COND": 'run_thing(name="t", run="true")\n'}, False),
         ("python-ok", {"COND": 'import os\nN = [i for i in range(2)]\nrun_command(name="t", run="true", args=N)\n'}, True),
